@@ -2,7 +2,7 @@
    prime, expose the buffer.  Proved here: priming without spanning links (_ov_initprime) after a truthful
    seek succeeds and keeps the reported position, so a lapped sample seek whose executable hypotheses hold
    returns 0 and reports exactly the target - the position the plain seek reports.  C19. *)
-From VV Require Import Blocking Blocking_lemmas VFile VFile_lemmas Decoder_lemmas Sync_lemmas Seek_lemmas Term_lemmas Read_lemmas Prime_lemmas.
+From VV Require Import Blocking Blocking_lemmas VFile VFile_lemmas Decoder_lemmas Sync_lemmas Seek_lemmas Term_lemmas Read_lemmas Prime_lemmas Cross_lemmas.
 From Coq Require Import ZArith List Bool Lia ZifyBool.
 Import ListNotations.
 Local Open Scope Z_scope.
@@ -147,6 +147,62 @@ Proof.
       cbn [initprime]. rewrite (pcmout_core s Hcore). fold d. assert (negb (dec_pcmout d =? 0) = true) as -> by lia. reflexivity.
 Qed.
 
+(* fetch_ns looks at its argument only through make_ready *)
+Lemma fetch_ns_make_ready f s : fetch_ns (S f) (make_ready s) = fetch_ns (S f) s.
+Proof. cbn [fetch_ns]. rewrite Cross_lemmas.make_ready_idem. reflexivity. Qed.
+
+(* _ov_initprime right after a page or byte seek has landed (decoder dumped or restarted, the first queued
+   packet ends at the reported position): two fetches, the position stays *)
+Theorem initprime_from_landed s1 pos :
+  Landed tail s1 pos -> (2 <= length (stream tail s1))%nat ->
+  forall fuel, (3 <= fuel)%nat ->
+  exists sp, initprime fuel s1 = (0, sp) /\ v_pcm sp = v_pcm s1 /\ 0 < dec_pcmout (v_dec sp).
+Proof.
+  intros Hland Hlen fuel Hfuel.
+  assert (exists f, fuel = S (S (S f))) as [f Hf] by (exists (fuel - 3)%nat; lia). rewrite Hf.
+  destruct (landed_ready tail s1 pos Hland) as (Hc2 & Hpl2 & Hd2 & Hst2 & Hr2 & Hq2).
+  set (s2 := make_ready s1) in *.
+  destruct Hd2 as (He0 & Hret & Hph).
+  assert (cur_link s2 = cur_link s1 /\ base_of s2 (v_link s2) = base_of s1 (v_link s1) /\ v_pcm s2 = v_pcm s1) as (L1 & L2 & L3).
+  { unfold s2, make_ready. destruct (v_rs s1 =? STREAMSET); repeat split; reflexivity. }
+  rewrite L1, L2, L3 in Hph. rewrite L2, L3 in He0.
+  set (e := v_pcm s1 - base_of s1 (v_link s1)) in *.
+  destruct Hph as [(_ & Hseq & Hin2 & Hre2 & _)|(Hlb & _)].
+  2: { exfalso. destruct Hc2 as (_ & _ & B0 & B1 & _). rewrite L1 in B0, B1. unfold blocksize in Hlb. destruct (d_W (v_dec s2)); lia. }
+  destruct (stream tail s2) as [|p r] eqn:Est; [exfalso; exact Hre2|].
+  cbn [IntactS] in Hin2. destruct Hin2 as (w & Hw & Heos & Hg & Hrest).
+  assert (Forall audio (stream tail s2)) as Hau.
+  { rewrite Est. constructor; [exists w; exact Hw|]. eapply intact_audio. exact Hrest. }
+  pose proof Hc2 as (_ & Hrs2 & _).
+  destruct (fetch_ns_plain (fetch_fuel s2) s2 p r Hrs2 Hpl2 Hau) as (w' & s0 & Hw' & Hfe & Hv0 & Hst0 & Hpl0);
+    [unfold fetch_fuel; destruct (stream_bound tail s2 Hpl2) as [B1 B2]; lia|exact Est|].
+  rewrite Hw in Hw'. injection Hw' as <-.
+  assert (Core s0) as Hc0 by (eapply view_core; [symmetry; exact Hv0|exact Hc2]).
+  assert (PreSync s2 e p w) as Hps.
+  { unfold PreSync. rewrite L1, L2, L3. repeat split; try assumption; try (unfold e; lia). }
+  assert (PreSync s0 e p w) as Hps0 by (eapply view_presync; [symmetry; exact Hv0|exact Hps]).
+  destruct (feed_presync s0 e p w Hc0 Hps0) as (Hsync & Hout & HW).
+  destruct (link_feed s0 p w) as (L3' & L4). destruct (view_link _ _ Hv0) as (L5 & L6 & _).
+  (* the first round of initprime: nothing pending, fetch *)
+  assert (fetch_ns (fetch_fuel s1) s1 = (1, feed s0 p w)) as Hfe1.
+  { assert (fetch_fuel s1 = fetch_fuel s2) as -> by (unfold fetch_fuel; rewrite Hr2, Hq2; reflexivity).
+    unfold fetch_fuel in *. rewrite Nat.add_succ_r in *. rewrite <- fetch_ns_make_ready. exact Hfe. }
+  assert ((v_rs s1 =? INITSET) && negb (dec_pcmout (v_dec s1) =? 0) = false) as Hc1.
+  { destruct Hland as (_ & [Hrs|(Hrs & Hr1 & _)] & _); rewrite Hrs; [reflexivity|].
+    unfold dec_pcmout. rewrite Hr1. reflexivity. }
+  destruct r as [|p2 r2]; [rewrite <- Hst2 in Hlen; cbn in Hlen; lia|].
+  destruct (initprime_from_sync f (feed s0 p w) e p2 r2) as (sp & Hpr & Hpc2 & Hpend & _).
+  - apply core_feed. exact Hc0.
+  - apply plain_feed. exact Hpl0.
+  - exact Hsync.
+  - exact Hout.
+  - rewrite (stream_feed tail), Hst0. reflexivity.
+  - rewrite L3', L5, L1, HW. exact Hrest.
+  - exists sp. split; [|split; [|exact Hpend]].
+    + cbn [initprime]. rewrite Hc1, Hfe1. change (1 <? 0) with false. cbv iota. exact Hpr.
+    + rewrite Hpc2. destruct Hsync as (_ & _ & _ & _ & _ & _ & _ & _ & S9 & _). rewrite S9, L4, L6, L2. unfold e. lia.
+Qed.
+
 End TailL.
 
 (* the state a lapped seek hands to the plain seek, when setting up succeeds: decoder set up, lapping data taken *)
@@ -225,4 +281,17 @@ Proof.
   unfold lap_hyps. intros H. repeat (apply andb_prop in H; let H' := fresh "C" in destruct H as [H H']).
   destruct (lap_pre s) as [s2|] eqn:Ep; [|discriminate]. apply andb_prop in C. destruct C as [C3 C4].
   apply (lap_seek_lands s pos s2); try lia; try assumption; try reflexivity.
+Qed.
+
+(* any lapped seek whose plain seek (after the set-up) lands on an intact run with two packets to prime from:
+   it returns 0 and reports the position that seek reports - page and byte seeks land this way
+   (Seek_lemmas.pcm_seek_page_truthful, raw_seek_truthful, raw_seek_truthful_other_link) *)
+Theorem lap_seek_lands_where_plain_lands (tail : list page) seek s pos s2 s3 pos' :
+  lap_pre s = Some s2 -> seek s2 pos = (0, s3) -> Landed tail s3 pos' -> (2 <= length (stream tail s3))%nat ->
+  fst (seek_lap seek s pos) = 0 /\ v_pcm (snd (seek_lap seek s pos)) = v_pcm s3.
+Proof.
+  intros Hpre Hs Hland Hlen.
+  rewrite (seek_lap_pre seek s pos s2 Hpre), Hs. change (negb (0 =? 0)) with false. cbv iota.
+  destruct (initprime_from_landed tail s3 pos' Hland Hlen (lap_fuel s3)) as (sp & Hip & Hpc & _); [unfold lap_fuel; lia|].
+  rewrite Hip. change (negb (0 =? 0)) with false. cbv iota. cbn [fst snd v_pcm set_dec]. split; [reflexivity|exact Hpc].
 Qed.
